@@ -117,6 +117,18 @@ def run(ck):
         A = ["w " + hx(x), "w " + hx(y), "gmul 1 0 0 0 0 0 - $0 $1 0 0", "gadd 0 1 1 0 0 0 - $2 $0 0 0"]
         B = ["w " + hx(x), "w " + hx(y), "gmul 1 0 0 0 0 0 - $0 $1 0 0", "gadd 0 1 1 0 0 0 - $2 $1 0 0"]
         add_case("forced prover: copy constraint broken, every row satisfied", A, B)
+    # copy constraints one end of which sits on the closing (selector-less) row of a gadget: the logic result consumed
+    # downstream, and the witness a range check is bound to; the instance wires a different witness there
+    for _ in range(max(2, n_each // 2)):
+        x, y, f = rng.randrange(1 << 4), rng.randrange(1 << 4), 200 + rng.small(50)
+        for op in ("lxor", "land"):
+            A = ["w " + hx(x), "w " + hx(y), "w " + hx(f), f"{op} 2 $0 $1", "gadd 0 1 1 0 0 0 - $3 $0 0 0"]
+            B = A[:4] + ["gadd 0 1 1 0 0 0 - $2 $0 0 0"]
+            add_case(f"forced prover: result of {op} replaced downstream by another witness (copy constraint on the gadget's closing row)", A, B)
+        big = 1000 + rng.small(1000)
+        A = ["w " + hx(big), "w " + hx(rng.randrange(256)), "rbits 8 $0", "gadd 0 1 1 0 0 0 - $0 $0 0 0"]
+        B = A[:2] + ["rbits 8 $1", "gadd 0 1 1 0 0 0 - $0 $0 0 0"]
+        add_case("forced prover: range check bound to another witness than the one used downstream", A, B)
     res = protocol.run(S, "c02_a", timeout=3000)
     ck.sample({"compiled": S.circuits["A1"], "instance_tail": S.circuits["B1"][-2:]})
     # ---- oracle: proved evaluator on (A's selectors, B's wires) + copy classes
